@@ -214,6 +214,7 @@ pub struct Sim {
     leaders: HashMap<u64, u64>,                       // term -> effective leader id
     committed: BTreeMap<u64, (u64, u64, u64)>,        // index -> (term, kind, digest) reported committed
     leader_committed: BTreeMap<u64, (u64, u64, u64)>, // index -> entry, recorded when a *leader* advanced its commit index over it
+    leader_committed_in: BTreeMap<u64, u64>,          // index -> term of the leader that first committed it
     ref_app: BTreeMap<u64, (u64, ConfState)>,         // index -> (digest, cs) of the application state
     released_as_leader: HashMap<(u64, u64), u64>,     // (term, id) -> incarnation
     reads: HashMap<Vec<u8>, (u64, u64)>,              // ctx -> (issuing node, max commit at issue)
@@ -342,7 +343,7 @@ impl Sim {
         let mut sim = Sim {
             nodes, net: vec![], rng, logger, history: vec![header], ptrace: vec![], p_active: params.emit_p,
             p_end_reason: String::new(), violations: vec![], stats: BTreeMap::new(), step_no: 0, params, async_mode,
-            next_payload: 1, leaders: HashMap::new(), committed: BTreeMap::new(), leader_committed: BTreeMap::new(), ref_app: BTreeMap::new(),
+            next_payload: 1, leaders: HashMap::new(), committed: BTreeMap::new(), leader_committed: BTreeMap::new(), leader_committed_in: BTreeMap::new(), ref_app: BTreeMap::new(),
             released_as_leader: HashMap::new(), reads: HashMap::new(), max_commit: 0, seen_commit: HashMap::new(),
             last_conf: HashMap::new(),
         };
@@ -507,26 +508,22 @@ impl Sim {
                 }
             }
         }
-        // C03 monitor: a new leader holds every entry reported committed so far
+        // C03 monitor: a new leader holds every entry that a leader of an EARLIER term committed
         if post.state == StateRole::Leader && (pre.state != StateRole::Leader || !same_term) {
-            let mut missing = None;
-            for (k, e) in post.entries.iter().enumerate() {
-                let idx = post.first + k as u64;
-                if let Some(c) = self.committed.get(&idx) {
-                    if c != e {
-                        missing = Some((idx, *e, *c));
-                        break;
-                    }
-                }
-            }
             let last = post.first + post.entries.len() as u64 - 1;
-            if missing.is_none() {
-                if let Some((&idx, c)) = self.committed.range(last + 1..).next() {
-                    missing = Some((idx, (0, 0, 0), *c));
+            let mut missing = None;
+            for (&idx, c) in self.leader_committed.iter() {
+                if self.leader_committed_in.get(&idx).map_or(true, |t| *t >= post.term) || idx < post.first {
+                    continue;
+                }
+                let have = if idx <= last { post.entries[(idx - post.first) as usize] } else { (0, 0, 0) };
+                if have != *c {
+                    missing = Some((idx, have, *c));
+                    break;
                 }
             }
             if let Some((idx, have, want)) = missing {
-                self.violate("C03", format!("n{} became leader of term {} but at committed index {} it holds {:?} instead of {:?}", id, post.term, idx, have, want));
+                self.violate("C03", format!("n{} became leader of term {} but at index {} (committed by the leader of term {}) it holds {:?} instead of {:?}", id, post.term, idx, self.leader_committed_in[&idx], have, want));
             }
         }
         // C09 monitors
@@ -676,6 +673,7 @@ impl Sim {
                 for idx in lo..=post.commit {
                     if let Some(e) = post.entries.get((idx - post.first) as usize) {
                         self.leader_committed.entry(idx).or_insert(*e);
+                        self.leader_committed_in.entry(idx).or_insert(post.term);
                     }
                 }
             } else if pre.state != StateRole::Leader {
